@@ -763,7 +763,9 @@ def run(ctx):
     named = [(s, ctx.seed, p) for s in NAMED_SCEN for p in (("wgs",) if quick else ("wgs", "illumina", "exome"))]
     multi = [(w, r, o, ctx.seed) for w in (0, 1, 2) for r in ("bam-profile", "user-structure") for o in (("simple", "aldy") if quick else OUTKINDS)]
     jobs = [("s", t) for t in tasks] + [("w", t) for t in wt] + [("n", t) for t in named] + [("m", t) for t in multi]
-    results = par.pmap(_dispatch, jobs)
+    results = par.pmap(_dispatch, jobs, timeout=900 if quick else 2400, default=lambda j: [])
+    if par.TIMED_OUT:
+        ctx.parts["tasks_killed_by_watchdog"] = [repr(x)[:300] for x in par.TIMED_OUT]
     pairs, nwit = [], 0
     for (kind, _), res in zip(jobs, results):
         for row, meta in res:
